@@ -844,13 +844,14 @@ func init() {
 		Rule: "each case is a program over a stack of cache wrappers (depth<=4) on a MemDB adapter, an IAVL store, a prefix store or a cache multistore " +
 			"(2-3 substores): get/has/set/del/drained iterators with generated bounds/iterators kept open across writes/write/wrap/discard on keys over {00,01,61,ff}^1..3 (slices with 0-8 bytes of spare poisoned capacity); " +
 			"every result is compared with a stack-of-sorted-maps model, lower levels are re-read after every write/discard; 1 in 6 cases runs 2-4 goroutines on one wrapper " +
-			"and checks per-key linearizability with porcupine; non-trivial = a drained iterator whose range holds both a parent key shadowed by a delete and a cache-only key, " +
+			"and checks per-key linearizability with porcupine - half of those under a harness-owned schedule (two threads in lock step; a read-through of the first is held inside the parent store while the " +
+			"second's operation is started); non-trivial = a drained iterator whose range holds both a parent key shadowed by a delete and a cache-only key, " +
 			"or nesting >=2 with a Write at an inner level, or a concurrent case with >=6 operations; distinctness = hash of the program",
 		Gen:       genC15,
 		New:       func() interface{} { return &c15Prog{} },
 		Exec:      execC15,
 		RecordCur: func(prog interface{}) bool { return len(prog.(*c15Prog).Threads) > 0 },
 		Assum: []string{"a lower wrapper is only read, never written, while a higher one is alive", "Write/discard happen with no iterator open",
-			"goroutine interleavings are sampled by the Go scheduler, not enumerated"},
+			"goroutine interleavings are sampled by the Go scheduler or forced at parent reads, not enumerated"},
 	})
 }
